@@ -59,6 +59,14 @@ def main():
         sh(["git", "checkout", "--", "Lib", "Tests"], cwd=wt)
 
     restore()
+    # bring the scratch worktree to /repo's current HEAD (fix: commits made since the seeder started), so that the
+    # check judges "current tree + seeded change" and not defects that have been repaired meanwhile
+    head = sh(["git", "-C", "/repo", "rev-parse", "HEAD"])[1].strip()
+    rc, out, _ = sh(["git", "checkout", "-q", "--detach", head], cwd=wt)
+    meta["base_commit"] = head[:10]
+    if rc != 0:
+        meta["error"] = "cannot move worktree to %s: %s" % (head, out[-300:])
+        print(json.dumps(meta, indent=1)); return 2
     rc, out, _ = sh([PY, demo], cwd=wt, env=env)
     meta["demo_pristine_exit"] = rc
     meta["ran"].append("pristine: PYTHONPATH=<wt>/Lib python demo.py -> exit %d" % rc)
